@@ -14,7 +14,7 @@ def rand_pattern(rng):
         alpha = "ATGC" if rng.random() < 0.6 else "ATGCNWSRY"
         return "".join(rng.choice(alpha) for _ in range(n))
     if r < 0.65:
-        return "%dx%s" % (rng.randint(2, 4), rng.choice("ATGC"))
+        return "%dx%s" % (rng.randint(2, 4), rng.choice("ATGC" if rng.random() < 0.7 else "NWSRY"))
     if r < 0.8:
         return "%dx%dmer" % (rng.randint(2, 3), rng.randint(1, 2))
     return rng.choice(ENZ) + "_site"
@@ -51,8 +51,12 @@ def rand_soft(rng, seq, role="constraint", allow=None):
         return dict(kind="stop", location=rand_loc(rng, n, codon=True),
                     table=rng.choice(["Standard", "Bacterial", "Vertebrate Mitochondrial", "Ciliate Nuclear", "Yeast Mitochondrial"]))
     if k == "kmers":
-        return dict(kind="kmers", k=rng.choice([2, 3, 4, 5]), location=None if whole else rand_loc(rng, n, 6, strands=(1, 0)),
-                    rc=rng.random() < 0.5)
+        d = dict(kind="kmers", k=rng.choice([2, 3, 4, 5]), location=None if whole else rand_loc(rng, n, 6, strands=(1, 0)),
+                 rc=rng.random() < 0.5)
+        if rng.random() < 0.25:
+            # an explicit reference: "here" (the location itself) or another region, not necessarily covering the location
+            d["reference"] = "here" if rng.random() < 0.4 else rand_loc(rng, n, 6, strands=(0,))[:2]
+        return d
     if k == "terminal":
         w = rng.randint(2, max(2, n // 2))
         return dict(kind="terminal", window=w, mini=rng.choice([0.0, 0.25, 0.4]), maxi=rng.choice([0.6, 0.75, 1.0]))
@@ -80,10 +84,12 @@ def rand_soft(rng, seq, role="constraint", allow=None):
 
 def rand_objective(rng, seq):
     n = len(seq)
-    k = rng.choice(["cai", "cai", "keep", "change", "gc", "pattern", "user", "kmers_obj", "sequence_obj"])
+    k = rng.choice(["cai", "cai", "keep", "change", "gc", "pattern", "user", "kmers_obj", "sequence_obj", "cds_obj"])
     boost = rng.choice([0, 0.5, 1, 1, 2, 3])
     if k == "cai" and n >= 3:
         return dict(kind="cai", location=rand_loc(rng, n, codon=True), table_seed=rng.randint(0, 10 ** 6), boost=boost)
+    if k == "cds_obj" and n >= 3:
+        return dict(kind="cds_obj", location=rand_loc(rng, n, codon=True), table=rng.choice(["Standard", "Bacterial"]), boost=boost)
     if k == "sequence_obj":
         a = rng.randint(0, n - 1)
         b = rng.randint(a + 1, min(n, a + 12))
@@ -216,7 +222,9 @@ def build_spec(d):
     if k == "stop":
         return dc.AvoidStopCodons(genetic_table=d["table"], location=loc)
     if k == "kmers":
-        return dc.UniquifyAllKmers(d["k"], location=loc, include_reverse_complement=d["rc"])
+        ref = d.get("reference")
+        ref = ref if (ref is None or ref == "here") else tuple(ref)
+        return dc.UniquifyAllKmers(d["k"], location=loc, include_reverse_complement=d["rc"], reference=ref)
     if k == "kmers_obj":
         return dc.UniquifyAllKmers(d["k"], boost=boost)
     if k == "terminal":
@@ -240,6 +248,8 @@ def build_spec(d):
         return dc.HarmonizeRCA(codon_usage_table=hard.user_table(random.Random(d["table_seed"])),
                                original_codon_usage_table=hard.user_table(random.Random(d["orig_table_seed"])),
                                location=loc, boost=boost)
+    if k == "cds_obj":
+        return dc.EnforceTranslation(location=loc, genetic_table=d["table"], boost=boost)
     if k == "sequence_obj":
         return dc.EnforceSequence(sequence=d["sequence"], location=loc, boost=boost)
     if k == "keep_obj":
